@@ -71,6 +71,13 @@ CHECKS.update({
          "observes Producer._send_requests / _complete_batch_send / client.send_produce_request and the reactor's callLater through harness wrappers; traffic after stop() is left to C19", "3/C09"),
 })
 
+CHECKS.update({
+ "C19": ("producer-e2e", "exploration",
+         "reference-model monitor: the queue is re-computed from caller-side events only and compared with every batch the producer takes (hook on Producer._send_batch) and with its counters at every quiescent point",
+         "Batching scenarios on warm metadata and zero latency: every batch taken must be exactly the queued, not-cancelled sends and be justified by a met count/byte threshold or a timer tick with nothing in flight; at every quiescent point the waiting counters equal the queue and a met threshold with nothing in flight is a missed dispatch; with a time limit nothing waits more than one period beyond the in-flight batch; cancel before dispatch keeps the messages off the wire, cancel/stop fail with a cancellation error at once, and nothing is taken or written after stop().",
+         "reads Producer._batch_reqs/_waitingMsgCount/_waitingByteCount/_batch_send_d (missing attribute => inconclusive)", "3/C19"),
+})
+
 PENDING = {}
 
 def main():
